@@ -510,14 +510,34 @@ func c16(e *Env) {
 		t0 := w.Now()
 		w.Stat("fault.stall-node")
 		limit := cfg.IdleTimeout + cfg.Heartbeat + cfg.ConnectTimeout + 2*time.Second
-		ok := w.RunUntil(func() bool {
+		allClosed := func() bool {
 			for _, bc := range conns {
 				if !bc.Closed {
 					return false
 				}
 			}
 			return true
-		}, limit)
+		}
+		ok := false
+		if c.Choose("stalltraffic", 2) == 1 {
+			// clients keep sending while the node is silent (several requests per heartbeat
+			// interval go to the unresponsive connections): requests written are no sign of life
+			tc := w.ConnectClient(pi, primitive.ProtocolVersion4)
+			tc.Send("startup", "", message.NewStartup(), nil)
+			every := time.Duration(2+c.Choose("stalltrafficevery", 8)) * time.Second
+			for w.Now()-t0 < limit && !w.Stopped() {
+				if ok = w.RunUntil(allClosed, every); ok {
+					break
+				}
+				for k := 0; k < len(w.Nodes); k++ {
+					tok := w.NewToken()
+					tc.Send("query", tok, world.QueryMsg("SELECT * FROM ks.t WHERE k = '"+tok+"'", primitive.ConsistencyLevelOne), nil)
+				}
+			}
+			e.Res.Stats["probe.c16.stall_with_traffic"]++
+		} else {
+			ok = w.RunUntil(allClosed, limit)
+		}
 		if w.Stopped() {
 			return
 		}
